@@ -20,7 +20,9 @@ def main():
         # the stored counterexample claims an exception escaping from pydl: reproduced iff it escapes again
         import traceback
         traceback.print_exc()
-        ok = rec.get('label', '').startswith('exception:') and type(e).__name__ in rec['label']
+        # reproduced iff an exception of the recorded class - or a subclass of it, e.g. numpy's UFuncTypeError for TypeError - escapes again
+        names = [c.__name__ for c in type(e).__mro__ if c not in (Exception, BaseException, object)]
+        ok = rec.get('label', '').startswith('exception:') and any(('exception: %s ' % n) in rec['label'] for n in names)
     print('replay %s %s: %s' % (pid, path, 'REPRODUCED' if ok else 'not reproduced'))
     sys.exit(10 if ok else 0)
 
